@@ -9,7 +9,7 @@ RULE = ('a window automaton is fed online with every real main_loop iteration of
         'retransmission, IKE_SA_INIT retries reuse 0), never n+1 before the response to n was accepted; every emitted datagram has version '
         '2.0, the IKE_SA\'s SPIs, I flag = sender is the original initiator, R flag and exchange type / ID of the request it answers, correct '
         'Length. Workload: for each exchange kind (initial exchanges, new CHILD, CHILD rekey, IKE rekey, CHILD delete, IKE delete, DPD) on '
-        'each role, EXHAUSTIVE schedules of deliver / duplicate (<=2) / drop (<=1) over the in-flight datagrams, each leaf followed by a '
+        'each role (also with configurations whose DH preference orders force an INVALID_KE_PAYLOAD retry), EXHAUSTIVE schedules of deliver / duplicate (<=2) / drop (<=1) over the in-flight datagrams, each leaf followed by a '
         'lossless drain with retransmission timers; seeded random walks with duplication, loss and LATE replays of datagrams recorded '
         'earlier (after later exchanges completed, after rekey, towards successor and predecessor). distinct = action sequences.')
 ASSUMPTIONS = ['honest peers; datagrams are only copied, delayed, reordered or lost, never modified (modification is C03/C07)',
@@ -43,6 +43,16 @@ def run(ck):
                 lv, _ = walk.explore(lambda: walk.Scenario(base + n, mons), [(x, kind)], leaf, max_leaves=cap2, dup_budget=dupb, drop_budget=dropb)
                 ck.count('exhaustive.leaves', lv)
                 ck.seen('exhaustive.kinds', (x, kind, dupb, dropb))
+    # exchanges that need an INVALID_KE_PAYLOAD retry (DH preference orders differ): the retry is a NEW request with the next Message ID
+    from vf.checks.c13 import IKE_DH_MISMATCH, CHILD_DH_MISMATCH
+    for x in 'AB':
+        for kind, conf in (('rekey_ike', IKE_DH_MISMATCH), ('acquire', CHILD_DH_MISMATCH), ('expire_soft', CHILD_DH_MISMATCH)):
+            n += 1
+            if not ck.mine(n):
+                continue
+            lv, _ = walk.explore(lambda: walk.Scenario(base + n, mons, dict(conf)), [(x, kind)], leaf, max_leaves=700 if not ck.thorough() else 6000, dup_budget=1, drop_budget=1)
+            ck.count('exhaustive.leaves', lv)
+            ck.seen('exhaustive.kinds', (x, kind + '+invalid-ke-retry', 1, 1))
     # initial exchanges under duplication / loss
     for dupb, dropb in ((2, 0), (1, 1)):
         n += 1
@@ -103,6 +113,6 @@ def verdict(ck):
     ck.floor('requests executed in window', sum(v for k, v in c.items() if k.startswith('win.request.next.')), 5000)
     ck.floor('retransmissions seen byte-identical', c['win.retransmissions_seen'], 100)
     ck.floor('emitted datagrams stamped', c['win.emitted'], 20000)
-    ck.floor('exchange kinds x roles explored exhaustively', len(ck.sets['exhaustive.kinds']), 26)
+    ck.floor('exchange kinds x roles explored exhaustively', len(ck.sets['exhaustive.kinds']), 32)
     ck.floor('(class, exchange, state) request combinations', len(ck.sets['win.request_classes']), 40)
     return {'request_classes': len(ck.sets['win.request_classes']), 'response_classes': len(ck.sets['win.response_classes'])}
